@@ -1060,6 +1060,9 @@ func (run *Run) startClientOp(c int, si *StepInfo) {
 	st.op = op
 	w := run.cur
 	si.Name = fmt.Sprintf("start:c%d:%s", c, op.Kind)
+	if op.Kind == "save" && !run.sc.Cfg.NoOracle {
+		run.mon.onSaveOpStart(c)
+	}
 	go func() {
 		raceOff()
 		run.hello <- helloMsg{c, goid()}
